@@ -2552,4 +2552,16 @@ theorem serializeStream_own (blk : Nat) (code : Nat) (h : Dic) (parts : List Byt
   rw [ho]
   simp
 
+/-- setting a key twice is setting it once (no order or sortedness needed: the second `dicSet` finds the entry of the first) -/
+theorem dicSet_dicSet_same (d : Dic) (k v w : Bytes) : dicSet (dicSet d k v) k w = dicSet d k w := by
+  induction d with
+  | nil => simp [dicSet]
+  | cons kv t ih =>
+    obtain ⟨k', v'⟩ := kv
+    by_cases h1 : k' = k
+    · simp [dicSet, h1]
+    · by_cases h2 : ltBytes k k' = true
+      · simp [dicSet, h1, h2]
+      · simp [dicSet, h1, h2, ih]
+
 end AslProofs.HttpFrame
